@@ -2,7 +2,7 @@
 # usage: mutant_batch.sh <name:PROP> ...   runs each mutant against its property's quick check; summary to stdout
 for spec in "$@"; do
   name=${spec%%:*}; prop=${spec##*:}
-  /verif/tools/mutant_test.sh /verif/mutants/$name.diff $prop quick 2>&1 | grep -E "MUTANT-RESULT|TOOL-ERROR|PATCH-FAILED"
+  /verif/tools/mutant_test.sh /verif/mutants/$name.diff $prop quick 2>&1 | grep -E "MUTANT-RESULT|MUTANT-SUITE|TOOL-ERROR|PATCH-FAILED"
 done
 # rebuild harness against /repo
 cd /verif && python3 -c "import sys; sys.path.insert(0,'tools'); import vlib; vlib.build_harness()"
